@@ -168,6 +168,33 @@ fn run_two_stage(query: &Value) -> Result<Vec<Value>, String> {
     apply_input_plugins(query, &plugins).map_err(|e| e.to_string())
 }
 
+/// harness input plugin that fans out only *some* queries: one with an odd number of top-level
+/// fields becomes two copies (marked "fan_copy": 0 / 1), the others pass unchanged. After a grid
+/// search the plugin state is then partially nested, in any position.
+struct FanOutSome;
+impl InputPlugin for FanOutSome {
+    fn process(&self, input: &mut Value) -> Result<(), routee_compass::plugin::input::InputPluginError> {
+        if let Some(obj) = input.as_object() {
+            if obj.len() % 2 == 1 {
+                let copies: Vec<Value> = (0..2)
+                    .map(|i| {
+                        let mut c = obj.clone();
+                        c.insert("fan_copy".into(), json!(i));
+                        Value::Object(c)
+                    })
+                    .collect();
+                *input = Value::Array(copies);
+            }
+        }
+        Ok(())
+    }
+}
+
+fn run_partial_fan_out(query: &Value) -> Result<Vec<Value>, String> {
+    let plugins: Vec<Arc<dyn InputPlugin>> = vec![Arc::new(GridSearchPlugin {}), Arc::new(FanOutSome)];
+    apply_input_plugins(query, &plugins).map_err(|e| e.to_string())
+}
+
 fn run_plugin(query: &Value, through_pipeline: bool) -> Result<Vec<Value>, String> {
     if through_pipeline {
         let plugins: Vec<Arc<dyn InputPlugin>> = vec![Arc::new(GridSearchPlugin {})];
@@ -208,7 +235,7 @@ impl Prop for C17 {
         "C17"
     }
     fn rule(&self) -> String {
-        "enumerated: the mixed-radix iterator on all 340 shapes with 1-4 axes of 1-4 options (consumed through take(expected+1)); generated: iterator shapes up to 6 axes x 6 options; query objects with 0-5 extra fields of all JSON types, a grid section with 1-4 array fields of 1-4 distinct choices (numbers, strings, null, objects with 1-2 keys, mixtures), 0-2 non-array members, any key order and grid-key position, axis names that override a base field, one case in 300 with two axes of 18-45 choices (products of several hundred to several thousand), run through the plugin directly and through apply_input_plugins (a third of those through grid search -> inject a second grid section -> grid search); queries without a grid section. non-trivial = at least 2 axes with different lengths, one of length 1 and one object-valued choice".to_string()
+        "enumerated: the mixed-radix iterator on all 340 shapes with 1-4 axes of 1-4 options (consumed through take(expected+1)); generated: iterator shapes up to 6 axes x 6 options; query objects with 0-5 extra fields of all JSON types, a grid section with 1-4 array fields of 1-4 distinct choices (numbers, strings, null, objects with 1-2 keys, mixtures), 0-2 non-array members, any key order and grid-key position, axis names that override a base field, one case in 300 with two axes of 18-45 choices (products of several hundred to several thousand), run through the plugin directly and through apply_input_plugins (a third of those through grid search -> inject a second grid section -> grid search, another third followed by a harness plugin that fans out only some of the queries); queries without a grid section. non-trivial = at least 2 axes with different lengths, one of length 1 and one object-valued choice".to_string()
     }
     fn cases(&self, tier: Tier) -> u32 {
         tier.pick(40_000, 1_500_000)
@@ -372,7 +399,32 @@ impl Prop for C17 {
                         })
                         .collect();
                 }
-                let ran = if two_stage { run_two_stage(&b.query) } else { run_plugin(&b.query, *through_pipeline) };
+                // another third is followed by a plugin that fans out only some of the queries
+                let partial = *through_pipeline && *rotate % 3 == 1 && b.expected.len() <= 2000;
+                o.label_if(partial, "partial-fan-out-after-expansion");
+                if partial {
+                    b.expected = b
+                        .expected
+                        .iter()
+                        .flat_map(|e| match e.as_object() {
+                            Some(m) if m.len() % 2 == 1 => (0..2)
+                                .map(|i| {
+                                    let mut c = m.clone();
+                                    c.insert("fan_copy".into(), json!(i));
+                                    Value::Object(c)
+                                })
+                                .collect::<Vec<_>>(),
+                            _ => vec![e.clone()],
+                        })
+                        .collect();
+                }
+                let ran = if two_stage {
+                    run_two_stage(&b.query)
+                } else if partial {
+                    run_partial_fan_out(&b.query)
+                } else {
+                    run_plugin(&b.query, *through_pipeline)
+                };
                 let out = match ran {
                     Err(e) => {
                         o.fail("C17/grid/error", json!({"query": b.query, "error": e}));
